@@ -48,6 +48,7 @@ def check(run):
         b = run.borrow("C05", why="a fused rule must still be found for every request one of its members matches")
         run.guard("C01.via.C05.1.fusion-key", cfg, lambda: _C05.rule_key(b, F, cfg))
         run.guard("C01.via.C05.2.bucket-preservation", cfg, lambda: _C05.rule_bucket(b, F, cfg))
+        run.guard("C01.via.C05.4.disjunction", cfg, lambda: _C05.rule_disjunction(b, F, cfg))
         from . import C04 as _C04   # lazy: C04 imports sibling modules too
         b4 = run.borrow("C04", why="the engine verdict is the precedence formula over the per-list hits")
         run.guard("C01.via.C04.2.precedence", cfg, lambda: _C04.rule_precedence(b4, F, cfg))
